@@ -988,6 +988,8 @@ impl<'a> RepositoryUpdate<'a> {
         //     temp file and replace it with something new and we will now
         //     copy that to the final location.
 
+        #[cfg(routinator_verif)]
+        crate::verif::fs_point("snapshot.remove_old", self.path.as_ref());
         if let Err(err) = fs::remove_file(self.path.as_ref()) {
             if !matches!(err.kind(), io::ErrorKind::NotFound) {
                 error!(
@@ -999,6 +1001,8 @@ impl<'a> RepositoryUpdate<'a> {
             }
         }
         drop(archive);
+        #[cfg(routinator_verif)]
+        crate::verif::fs_point("snapshot.rename", self.path.as_ref());
         if let Err(err) = fs::rename(path.as_ref(), self.path.as_ref()) {
             error!(
                 "Fatal: Failed to move new RRDP repository file {} to {}: {}",
